@@ -136,3 +136,138 @@ theorem sumSq_negRow (r : List K) : sumSq (negRow r) = sumSq r := by
 
 end order
 end Nitime.C07
+
+namespace Nitime.C07
+open Nitime.Tridi Finset
+
+/-! ### sign flips leave Gram entries and eigen-residuals unchanged up to one global sign -/
+section flips
+variable {K : Type} [Field K]
+
+/-- a row as a total function (0 outside) -/
+def fnL (l : List K) (i : ℕ) : K := l.getD i 0
+
+theorem fnL_negRow (l : List K) (i : ℕ) : fnL (negRow l) i = - fnL l i := by
+  unfold fnL negRow
+  induction l generalizing i with
+  | nil => simp
+  | cons a t ih => cases i with
+    | zero => simp
+    | succ i => simpa using ih i
+
+/-- kernel residual `(Σ_n s(|m−n|)·v n) − λ·v m` -/
+def kernelResidual (N : ℕ) (s : ℕ → K) (lam : K) (v : ℕ → K) (m : ℕ) : K :=
+  (∑ n ∈ range N, s (m - n + (n - m)) * v n) - lam * v m
+
+theorem dot_eq (N : ℕ) (u v : ℕ → K) : dot N u v = ∑ n ∈ range N, u n * v n := by
+  unfold dot; rw [sumN_eq]
+
+theorem dot_neg_left (N : ℕ) (u v : ℕ → K) : dot N (fun i => - u i) v = - dot N u v := by
+  simp [dot_eq, Finset.sum_neg_distrib]
+
+theorem dot_neg_right (N : ℕ) (u v : ℕ → K) : dot N u (fun i => - v i) = - dot N u v := by
+  simp [dot_eq, Finset.sum_neg_distrib]
+
+theorem kernelResidual_neg (N : ℕ) (s : ℕ → K) (lam : K) (v : ℕ → K) (m : ℕ) :
+    kernelResidual N s lam (fun i => - v i) m = - kernelResidual N s lam v m := by
+  simp [kernelResidual, Finset.sum_neg_distrib]; ring
+
+end flips
+
+/-! ### one step of inverse iteration in an orthonormal eigenbasis -/
+section invit
+variable {K : Type} [Field K]
+
+/-- If `(A − μ)·y = x` on the first `N` coordinates, `A` is symmetric against `u` for the pairing
+`⟨a,b⟩ = Σ_{m<N} a m·b m`, and `A·u = λ·u`, then the coefficient of `y` along `u` is that of `x`
+divided by `λ − μ`: `(λ − μ)·⟨y,u⟩ = ⟨x,u⟩`. -/
+theorem invit_coeff (N : ℕ) (A : (ℕ → K) → ℕ → K) (mu lam : K) (x y u : ℕ → K)
+    (hsolve : ∀ m, m < N → A y m - mu * y m = x m)
+    (hsym : ∑ m ∈ range N, A y m * u m = ∑ m ∈ range N, y m * A u m)
+    (heig : ∀ m, m < N → A u m = lam * u m) :
+    (lam - mu) * ∑ m ∈ range N, y m * u m = ∑ m ∈ range N, x m * u m := by
+  have h1 : ∑ m ∈ range N, x m * u m = ∑ m ∈ range N, A y m * u m - mu * ∑ m ∈ range N, y m * u m := by
+    rw [Finset.mul_sum, ← Finset.sum_sub_distrib]
+    refine Finset.sum_congr rfl fun m hm => ?_
+    rw [← hsolve m (mem_range.1 hm)]; ring
+  have h2 : ∑ m ∈ range N, y m * A u m = lam * ∑ m ∈ range N, y m * u m := by
+    rw [Finset.mul_sum]
+    refine Finset.sum_congr rfl fun m hm => ?_
+    rw [heig m (mem_range.1 hm)]; ring
+  rw [h1, hsym, h2]; ring
+
+end invit
+end Nitime.C07
+
+namespace Nitime.C07
+open Nitime.Tridi Finset
+section triop
+variable {K : Type} [Field K]
+
+/-- the symmetric tridiagonal operator on index functions -/
+def triOp (D E : ℕ → K) (N : ℕ) (v : ℕ → K) (m : ℕ) : K :=
+  (if 0 < m then E (m - 1) * v (m - 1) else 0) + D m * v m + (if m + 1 < N then E m * v (m + 1) else 0)
+
+theorem mulRow_eq_triOp [Inhabited K] (d e x : Array K) (N i : ℕ) (hi : i < N) :
+    mulRow d e x N i = triOp (get d) (get e) N (get x) i := by
+  unfold mulRow triOp
+  by_cases h1 : N = 1
+  · have : i = 0 := by omega
+    subst this; simp [h1]
+  · rw [if_neg h1]
+    by_cases h0 : i = 0
+    · subst h0
+      have : 0 + 1 < N := by omega
+      simp [this]
+    · rw [if_neg h0]
+      have hpos : 0 < i := by omega
+      by_cases hl : i + 1 = N
+      · have : ¬ i + 1 < N := by omega
+        simp [hl, hpos]
+      · have : i + 1 < N := by omega
+        simp [hl, hpos, this]
+
+theorem triOp_symm (D E : ℕ → K) (N : ℕ) (v u : ℕ → K) :
+    ∑ m ∈ range N, triOp D E N v m * u m = ∑ m ∈ range N, v m * triOp D E N u m := by
+  rcases Nat.eq_zero_or_pos N with h | h
+  · subst h; simp
+  obtain ⟨M, rfl⟩ : ∃ M, N = M + 1 := ⟨N - 1, by omega⟩
+  have lower : ∀ a b : ℕ → K, ∑ m ∈ range (M + 1), (if 0 < m then E (m - 1) * a (m - 1) else 0) * b m
+      = ∑ k ∈ range M, E k * a k * b (k + 1) := by
+    intro a b
+    rw [Finset.sum_range_succ']
+    simp
+  have upper : ∀ a b : ℕ → K, ∑ m ∈ range (M + 1), (if m + 1 < M + 1 then E m * a (m + 1) else 0) * b m
+      = ∑ k ∈ range M, E k * a (k + 1) * b k := by
+    intro a b
+    rw [Finset.sum_range_succ]
+    simp only [Nat.lt_irrefl, if_false, zero_mul, add_zero]
+    refine Finset.sum_congr rfl fun k hk => ?_
+    have : k + 1 < M + 1 := by have := mem_range.1 hk; omega
+    rw [if_pos this]
+  have hL : ∑ m ∈ range (M + 1), triOp D E (M + 1) v m * u m
+      = ∑ k ∈ range M, E k * v k * u (k + 1) + ∑ m ∈ range (M + 1), D m * v m * u m
+        + ∑ k ∈ range M, E k * v (k + 1) * u k := by
+    rw [← lower v u, ← upper v u, ← Finset.sum_add_distrib, ← Finset.sum_add_distrib]
+    refine Finset.sum_congr rfl fun m _ => ?_
+    unfold triOp; ring
+  have hR : ∑ m ∈ range (M + 1), v m * triOp D E (M + 1) u m
+      = ∑ k ∈ range M, E k * u k * v (k + 1) + ∑ m ∈ range (M + 1), D m * u m * v m
+        + ∑ k ∈ range M, E k * u (k + 1) * v k := by
+    rw [← lower u v, ← upper u v, ← Finset.sum_add_distrib, ← Finset.sum_add_distrib]
+    refine Finset.sum_congr rfl fun m _ => ?_
+    unfold triOp; ring
+  rw [hL, hR]
+  have e1 : ∑ k ∈ range M, E k * v k * u (k + 1) = ∑ k ∈ range M, E k * u (k + 1) * v k :=
+    Finset.sum_congr rfl fun k _ => by ring
+  have e2 : ∑ k ∈ range M, E k * v (k + 1) * u k = ∑ k ∈ range M, E k * u k * v (k + 1) :=
+    Finset.sum_congr rfl fun k _ => by ring
+  have e3 : ∑ m ∈ range (M + 1), D m * v m * u m = ∑ m ∈ range (M + 1), D m * u m * v m :=
+    Finset.sum_congr rfl fun k _ => by ring
+  rw [e1, e2, e3]; ring
+
+theorem triOp_shift (D E : ℕ → K) (N : ℕ) (mu : K) (v : ℕ → K) (m : ℕ) :
+    triOp (fun i => D i - mu) E N v m = triOp D E N v m - mu * v m := by
+  unfold triOp; ring
+end triop
+end Nitime.C07
